@@ -15,8 +15,9 @@ TRUSTED = ["theorem create_edges_new_rename (Proofs/InterfacesProofs.v) for id r
            "coefficient pairs / tensions / pressures compared per physical junction / interface / cell with tolerance 1e-9 / 5e-8 / 2e-7 "
            "(taubinSVD) or 1e-3 / 2e-2 / 5e-2 (dlite: the iterative least-squares fit stops at a storage-order dependent point)"]
 ASSUMPTIONS = ["cells are inserted in construction order, as every parser does"]
-TESTED_NOT_PROVED = ["invariance under cyclic shifts and orientation flips (set of interfaces up to reversal, set of equations, tensions, "
-                     "pressures) is evaluated by the oracle on every case; only id renaming is proved"]
+TESTED_NOT_PROVED = ["invariance of the set of equations, of the tensions and of the pressures under cyclic shifts and orientation flips is "
+                     "evaluated by the oracle on every case (the invariance of the interface decomposition itself is proved: "
+                     "C07_cell_shift, C07_cell_flip, C07_tissue_shift_flip)"]
 IMPORTS = "From Forsys Require Import Model.CaseUtil Model.PyList Model.Interfaces.\n"
 
 
